@@ -27,7 +27,17 @@ def unhexL : List Char → Option Bytes
     pure (UInt8.ofNat (x * 16 + y) :: t)
   | _ => none
 
-def unhex (s : String) : Option Bytes := if s == "-" then some [] else unhexL s.toList
+/-- `<hex>~<count>~<hex>`: a run of `count` padding bytes 'x' between two hex parts (harness `HexRle`). -/
+def unhex (s : String) : Option Bytes :=
+  if s == "-" then some []
+  else match s.splitOn "~" with
+    | [a] => unhexL a.toList
+    | [a, n, b] => do
+      let x ← unhexL a.toList
+      let k ← n.toNat?
+      let y ← unhexL b.toList
+      pure (x ++ List.replicate k (120 : UInt8) ++ y)
+    | _ => none
 
 def fnv (bs : Bytes) : UInt64 :=
   bs.foldl (fun h b => (h ^^^ b.toUInt64) * 1099511628211) 1469598103934665603
@@ -36,13 +46,15 @@ structure DNode where
   snd : Sender := {}
   peers : List Peer := []
   paFirst : Bool := false
+  satRev : Bool := false
+  topRev : Bool := false
   table : List (Bytes × Entry) := []
 
 def DNode.peer (n : DNode) (i : Nat) : Peer := n.peers.getD i { related := false, dur := 0, lpos := 0 }
 def DNode.setPeer (n : DNode) (i : Nat) (f : Peer → Peer) : DNode := { n with peers := n.peers.set i (f (n.peer i)) }
 def DNode.dec (n : DNode) (b : Bytes) : Option Entry := (n.table.find? (fun x => x.1 == b)).map (·.2)
 def DNode.posStr (n : DNode) : String :=
-  ",".intercalate ((List.range 3).flatMap (fun i => [toString (n.peer i).lpos, toString (n.peer i).rpos]))
+  ",".intercalate ((List.range 6).flatMap (fun i => [toString (n.peer i).lpos, toString (n.peer i).rpos]))
 
 def parseSec (s : String) : Option (Option Nat) :=
   match s with
@@ -50,7 +62,7 @@ def parseSec (s : String) : Option (Option Nat) :=
   | "x" => some (some 3) | "g" => some (some 4) | _ => none
 
 def parsePeer (s : String) : Option Nat :=
-  match s with | "A" => some 0 | "B" => some 1 | "C" => some 2 | _ => none
+  match s with | "A" => some 0 | "B" => some 1 | "C" => some 2 | "D" => some 3 | "E" => some 4 | "F" => some 5 | _ => none
 
 def parseOptInt (s : String) : Option (Option Int) := if s == "-" then some none else (parseInt? s).map some
 
@@ -119,6 +131,9 @@ structure DSt where
   setposDiff : Nat := 0
   dumps : Nat := 0
   caseConfReplay : Bool := false
+  caseAdvance : Bool := false
+  advanceBad : Nat := 0
+  bigRecords : Nat := 0
   caseConfOther : Bool := false
   confReplay : Nat := 0
   confOther : Nat := 0
@@ -139,13 +154,17 @@ def finish (d : DSt) (n : Nat) (op : String) (node : DNode) (implObs modelObs : 
     d ← mismatch d n op s!"{implObs};{implPos}" s!"{modelObs};{mp}"
     -- resynchronise the positions on the implementation
     match parseIntList implPos with
-    | some [a, b, c, e, f, g] =>
-      node := ((node.setPeer 0 (fun p => { p with lpos := a, rpos := b })).setPeer 1 (fun p => { p with lpos := c, rpos := e })).setPeer 2
-        (fun p => { p with lpos := f, rpos := g })
-    | _ => pure ()
+    | some ps =>
+      if ps.length == 12 then
+        node := (List.range 6).foldl (fun nd i => nd.setPeer i (fun p => { p with lpos := ps.getD (2 * i) 0, rpos := ps.getD (2 * i + 1) 0 })) node
+    | none => pure ()
   d := { d with node := node }
   match ev, parseIntList implPos with
   | some ev, some pos =>
+    -- clause position_advance_justified, evaluated on its own: once per case
+    if !advanceOk d.sp ⟨ev, pos⟩ then
+      if !d.caseAdvance then IO.println s!"SPECFAIL line={n} case={d.caseNo} clause=position_advance_justified"
+      d := { d with caseAdvance := true, advanceBad := d.advanceBad + 1 }
     -- clause confirmation_not_beyond_received, evaluated on its own: once per case and kind
     match confirmStep d.sp ⟨ev, pos⟩ with
     | some k =>
@@ -201,27 +220,28 @@ def handle (d : DSt) (n : Nat) (line : String) : IO DSt := do
     -- the real code crashed during this operation: nothing is replayed at all
     if !d.caseFailed then IO.println s!"SPECFAIL line={n} case={d.caseNo} clause=no_crash"
     return { d with specfails := d.specfails + 1, caseFailed := true, died := d.died + 1 }
-  | ["C", _, now, pf, dA, dB, dC], _ =>
-    match parseInt? now, parseBool? pf, parseInt? dA, parseInt? dB, parseInt? dC with
-    | some now, some pf, some dA, some dB, some dC =>
-      let durs := [dA, dB, dC].map (· * usec)
-      let peers := [({ related := true, dur := dA * usec, lpos := 0 } : Peer), { related := true, dur := dB * usec, lpos := 0 },
-        { related := false, dur := dC * usec, lpos := 0 }]
-      return { d with node := { snd := start now {}, peers := peers, paFirst := pf, table := [] }, sp := specInit durs,
+  | ["C", _, now, pf, dA, dB, dC, dD, dE, dF], [sr, tr] =>
+    match parseInt? now, parseBool? pf, [dA, dB, dC, dD, dE, dF].mapM parseInt?, parseBool? sr, parseBool? tr with
+    | some now, some pf, some ds, some sr, some tr =>
+      let durs := ds.map (· * usec)
+      let peers := (List.range 6).map (fun i => ({ related := related i, dur := durs.getD i 0, lpos := 0 } : Peer))
+      return { d with node := { snd := start now {}, peers := peers, paFirst := pf, satRev := sr, topRev := tr, table := [] },
+                      sp := specInit durs,
                       caseNo := d.caseNo + 1, caseFailed := false, caseDelivered := false,
-                      caseConfReplay := false, caseConfOther := false }
+                      caseConfReplay := false, caseConfOther := false, caseAdvance := false }
     | _, _, _, _, _ => bad
-  | ["relay", now, id, sec], [frame, live, nf, pos] =>
+  | "relay" :: now :: id :: sec :: _, [frame, live, nf, pos] =>
     match parseInt? now, parseNat? id, parseSec sec, unhex frame, parseNat? live, parseOptInt nf with
     | some now, some id, some sec, some fb, some live, some nf =>
       let master := if node.paFirst && (node.peer 0).connected then some 0 else none
-      let r := relay node.peer master (zonesOf sec)
+      let r := relay node.peer master (zonesOf node.satRev node.topRev sec)
       let node1 := r.skipped.foldl (fun nd i => nd.setPeer i (fun p => { p with lpos := now })) node
       let logged := !fb.isEmpty
       -- the record as the implementation encoded it (oracle: the JSON text is not the property's business)
       let items := (nsReadAll none [fb]).items
       let payload := items.headD []
       let mut d := { d with relays := d.relays + 1, logged := d.logged + (if logged then 1 else 0),
+                            bigRecords := d.bigRecords + (if fb.length > 1000000 then 1 else 0),
                             skippedAdv := d.skippedAdv + r.skipped.length }
       if logged && (items.length != 1 || nsEncode payload != fb) then
         d ← mismatch d n "frame" frame "not-one-netstring"
@@ -271,17 +291,17 @@ def handle (d : DSt) (n : Nat) (line : String) : IO DSt := do
     | some c => finish d n "setcount" { node with snd := { node.snd with count := c } } "" "" pos none
     | none => bad
   | ["drop"], [pos] => finish d n "drop" node "" "" pos (some .drop)
-  | ["timer", now], [del, oA, oB, oC, pos] =>
-    match parseInt? now, parseIntList del, parseOut oA, parseOut oB, parseOut oC with
-    | some now, some del, some oA, some oB, some oC =>
+  | ["timer", now], [del, oA, oB, oC, oD, oE, oF, pos] =>
+    match parseInt? now, parseIntList del, [oA, oB, oC, oD, oE, oF].mapM parseOut with
+    | some now, some del, some outs =>
       let s' := cleanup now node.peers node.snd
       let mDel := (sortByName (node.snd.files.filter (fun f => !s'.files.any (·.name == f.name)))).map (·.name)
-      let mOut := fun i => match timerSetPos (node.peer i) with | some v => [OutObs.l v] | none => []
+      let mOuts := (List.range 6).map (fun i => match timerSetPos (node.peer i) with | some v => [OutObs.l v] | none => [])
       let d := { d with deletions := d.deletions + del.length }
       -- the confirmations the timer queues are judged by the clause confirmation_not_beyond_received only
-      let d := if [oA, oB, oC] != [mOut 0, mOut 1, mOut 2] then { d with setposDiff := d.setposDiff + 1 } else d
-      finish d n "timer" { node with snd := s' } (showNames del) (showNames mDel) pos (some (.timer now del [oA, oB, oC]))
-    | _, _, _, _, _ => bad
+      let d := if outs != mOuts then { d with setposDiff := d.setposDiff + 1 } else d
+      finish d n "timer" { node with snd := s' } (showNames del) (showNames mDel) pos (some (.timer now del outs))
+    | _, _, _ => bad
   | ["ack", p, v], [pos] =>
     match parsePeer p, parseInt? v with
     | some p, some v => finish d n "ack" (node.setPeer p (fun q => { q with lpos := setLogPos q.lpos v })) "" "" pos (some (.ack p v))
@@ -317,7 +337,7 @@ def handle (d : DSt) (n : Nat) (line : String) : IO DSt := do
     match parseInt? now, parseOptInt nf with
     | some now, some nf =>
       let s' := stop now node.snd
-      let node' := (List.range 3).foldl (fun nd i => nd.setPeer i (fun q => { q with connected := false })) { node with snd := s' }
+      let node' := (List.range 6).foldl (fun nd i => nd.setPeer i (fun q => { q with connected := false })) { node with snd := s' }
       let d := if nf.isSome then { d with rotations := d.rotations + 1 } else d
       -- for the ghost history a stop is a rotation followed by the end of all connections
       let d ← finish d n "stop" node' (nf.map toString |>.getD "-") (showNames (newNames node.snd s')) pos (some (.rotate nf))
@@ -328,19 +348,19 @@ def handle (d : DSt) (n : Nat) (line : String) : IO DSt := do
     | some k =>
       let sz := match node.snd.current with | some b => b.length | none => 0
       let kk := if k < 0 then sz else k.toNat
-      let node' := (List.range 3).foldl (fun nd i => nd.setPeer i (fun q => { q with connected := false })) { node with snd := crash kk node.snd }
+      let node' := (List.range 6).foldl (fun nd i => nd.setPeer i (fun q => { q with connected := false })) { node with snd := crash kk node.snd }
       finish d n "crash" node' "" "" pos (some (.damage ⟨none, kk, false⟩))
     | none => bad
-  | ["start", now], [pos] =>
-    match parseInt? now with
-    | some now =>
-      let node' := (List.range 3).foldl (fun nd i => nd.setPeer i (fun q => { q with connected := false, syncing := false }))
-        { node with snd := start now node.snd }
+  | ["start", now], [sr, tr, pos] =>
+    match parseInt? now, parseBool? sr, parseBool? tr with
+    | some now, some sr, some tr =>
+      let node' := (List.range 6).foldl (fun nd i => nd.setPeer i (fun q => { q with connected := false, syncing := false }))
+        { node with snd := start now node.snd, satRev := sr, topRev := tr }
       finish { d with restarts := d.restarts + 1 } n "start" node' "" "" pos (some .restart)
-    | none => bad
+    | _, _, _ => bad
   | _, _ => bad
 
 def main : IO Unit := do
   let stdin ← IO.getStdin
   let d ← foldLines stdin handle ({} : DSt)
-  IO.println s!"STATS cases={d.caseNo} steps={d.steps} relays={d.relays} logged={d.logged} replays={d.replays} probes={d.probes} damaged_replays={d.damagedReplays} delivered={d.delivered} setpos_in_replay={d.setposSeen} rotations={d.rotations} deletions={d.deletions} restarts={d.restarts} recv_dropped={d.recvDropped} skipped_advances={d.skippedAdv} nontrivial={d.nontrivial} mismatches={d.mismatches} specfails={d.specfails} died={d.died} confirm_beyond_replay_file_name={d.confReplay} confirm_beyond_other={d.confOther} dumps={d.dumps} setpos_queue_differs_from_model={d.setposDiff}"
+  IO.println s!"STATS cases={d.caseNo} steps={d.steps} relays={d.relays} logged={d.logged} replays={d.replays} probes={d.probes} damaged_replays={d.damagedReplays} delivered={d.delivered} setpos_in_replay={d.setposSeen} rotations={d.rotations} deletions={d.deletions} restarts={d.restarts} recv_dropped={d.recvDropped} skipped_advances={d.skippedAdv} nontrivial={d.nontrivial} mismatches={d.mismatches} specfails={d.specfails} died={d.died} confirm_beyond_replay_file_name={d.confReplay} confirm_beyond_other={d.confOther} dumps={d.dumps} setpos_queue_differs_from_model={d.setposDiff} position_advance_unjustified={d.advanceBad} records_over_1MB={d.bigRecords}"
